@@ -763,6 +763,52 @@ theorem Bnd.mem {utf16 : Bool} {src : List Nat} {n : Nat} (h : Bnd utf16 src n) 
   rw [h1]
   exact List.mem_append_right _ hit
 
+/-! #### the rest of a valid buffer after a character boundary is valid -/
+
+theorem items8_cons (sq rest : List Nat) (c : Nat) (hr : read8 (sq ++ rest) = some (c, sq.length))
+    (hpos : 1 ≤ sq.length) : items8 (sq ++ rest) = (c, sq.length) :: items8 rest := by
+  unfold items8
+  have hl : (sq ++ rest).length = (sq.length + rest.length - 1) + 1 := by
+    simp only [List.length_append]; omega
+  rw [hl]
+  simp only [itemsOf, hr]
+  rw [List.drop_left]
+  congr 1
+  exact ConformEnc.itemsOf_fuel read8 ConformEnc.read8_width rfl _ _ rest (by omega) (Nat.le_refl _)
+
+theorem bnd8_wf (src : List Nat) (h : Spec.WellFormedUtf8 src) : ∀ (pre : List (Nat × Nat)) (n : Nat),
+    items8 src = pre ++ items8 (src.drop n) → n = widthSum pre → Spec.WellFormedUtf8 (src.drop n) := by
+  induction h with
+  | nil => intro pre n _ _; simpa using Spec.WellFormedUtf8.nil
+  | cons sq rest hs hrest ih =>
+    intro pre n h1 h2
+    obtain ⟨c, hr, _, hpos⟩ := read8_seq sq rest hs
+    cases pre with
+    | nil =>
+      have : n = 0 := by simpa using h2
+      subst this
+      simpa using Spec.WellFormedUtf8.cons sq rest hs hrest
+    | cons it pre' =>
+      obtain ⟨c', w'⟩ := it
+      rw [items8_cons sq rest c hr hpos] at h1
+      simp only [List.cons_append, List.cons.injEq, Prod.mk.injEq] at h1
+      obtain ⟨⟨_, hw⟩, h3⟩ := h1
+      have hn : n = sq.length + widthSum pre' := by rw [h2, widthSum_cons, hw]
+      have hd : (sq ++ rest).drop n = rest.drop (widthSum pre') := by
+        rw [hn, ← List.drop_drop, List.drop_left]
+      rw [hd] at h3 ⊢
+      exact ih pre' _ h3 rfl
+
+/-- **re-slicing a valid buffer at a character boundary yields a valid buffer**: `&src[n..]` is
+again a `&str` (the slice expression does not panic) resp. a buffer of 16-bit units -/
+theorem Bnd.srcOK {utf16 : Bool} {src : List Nat} {n : Nat} (h : Bnd utf16 src n) (hsrc : SrcOK utf16 src) :
+    SrcOK utf16 (src.drop n) := by
+  cases utf16 with
+  | true => exact fun u hu => hsrc u (List.mem_of_mem_drop hu)
+  | false =>
+    obtain ⟨pre, h1, h2⟩ := h
+    exact bnd8_wf src hsrc pre n h1 h2
+
 variable (E : EFam)
 
 /-- a raw call made at a character boundary ends at a character boundary -/
